@@ -332,6 +332,16 @@ func c01Scenarios(tier string) []*core.Scenario {
 			}
 			return insnCase(mode, "RET", x86ref.Want{Op: "RET", Fixed: true}, feat("form", "noparam", "mn", "RET"), nil)
 		}})
+	scs = append(scs, memLabelScenario("mem_label"))
+	ctx := c02Context()
+	ctx.Name = "reg_mem_behind_same_shape"
+	scs = append(scs, ctx)
+	scs = append(scs, modeContextScenario("statement_in_mode_switching_file"))
+	return scs
+}
+
+// memLabelScenario (C01 mem_label, C02 ea_label): a label written as the memory address.
+func memLabelScenario(name string) *core.Scenario {
 	// a label written as the memory address: [lab] with and without size keyword, in every form that takes memory
 	labForms := []struct {
 		name string
@@ -353,6 +363,24 @@ func c01Scenarios(tier string) []*core.Scenario {
 		{"shl", func(w int, kw string) string { return "SHL " + kw + "[lab],1" }, func(w int, m x86ref.WantOp) x86ref.Want {
 			return x86ref.Want{Op: "SHL", OpSize: w, Ops: []x86ref.WantOp{m, wimm(1, 8)}}
 		}},
+		{"shr", func(w int, kw string) string { return "SHR " + kw + "[lab],4" }, func(w int, m x86ref.WantOp) x86ref.Want {
+			return x86ref.Want{Op: "SHR", OpSize: w, Ops: []x86ref.WantOp{m, wimm(4, 8)}}
+		}},
+		{"sar", func(w int, kw string) string { return "SAR " + kw + "[lab],1" }, func(w int, m x86ref.WantOp) x86ref.Want {
+			return x86ref.Want{Op: "SAR", OpSize: w, Ops: []x86ref.WantOp{m, wimm(1, 8)}}
+		}},
+		{"and_imm", func(w int, kw string) string { return "AND " + kw + "[lab],0x0f" }, func(w int, m x86ref.WantOp) x86ref.Want {
+			return x86ref.Want{Op: "AND", OpSize: w, Ops: []x86ref.WantOp{m, wimm(0x0f, w)}}
+		}},
+		{"xor_store", func(w int, kw string) string { return "XOR " + kw + "[lab]," + regsOf(w)[1] }, func(w int, m x86ref.WantOp) x86ref.Want {
+			return x86ref.Want{Op: "XOR", OpSize: w, Ops: []x86ref.WantOp{m, wreg(regsOf(w)[1])}}
+		}},
+		{"or_load", func(w int, kw string) string { return "OR " + regsOf(w)[3] + "," + kw + "[lab]" }, func(w int, m x86ref.WantOp) x86ref.Want {
+			return x86ref.Want{Op: "OR", OpSize: w, Ops: []x86ref.WantOp{wreg(regsOf(w)[3]), m}}
+		}},
+		{"cmp_load", func(w int, kw string) string { return "CMP " + regsOf(w)[0] + "," + kw + "[lab]" }, func(w int, m x86ref.WantOp) x86ref.Want {
+			return x86ref.Want{Op: "CMP", OpSize: w, Ops: []x86ref.WantOp{wreg(regsOf(w)[0]), m}}
+		}},
 		{"load", func(w int, kw string) string { return "MOV " + regsOf(w)[1] + "," + kw + "[lab]" }, func(w int, m x86ref.WantOp) x86ref.Want {
 			return x86ref.Want{Op: "MOV", OpSize: w, Ops: []x86ref.WantOp{wreg(regsOf(w)[1]), m}}
 		}},
@@ -367,16 +395,16 @@ func c01Scenarios(tier string) []*core.Scenario {
 		}},
 	}
 	labOrgs := []int64{0, 0x7c00}
-	scs = append(scs, &core.Scenario{Name: "mem_label", Bound: -1,
-		Rule:   "a label as memory address ([lab], label defined right behind the statement, its address computed from the emitted length) x 9 instruction forms x BYTE/WORD/DWORD x size keyword present/absent (absent only where a register fixes the size) x ORG {0, 0x7c00} x BITS",
+	return &core.Scenario{Name: name, Bound: -1,
+		Rule:   "a label as memory address ([lab], label defined right behind the statement, its address computed from the emitted length) x 15 instruction forms x BYTE/WORD/DWORD x size keyword present/absent (absent only where a register fixes the size) x ORG {0, 0x7c00} x BITS",
 		Bounds: map[string]any{"forms": len(labForms), "orgs": labOrgs},
 		Build: func(c *core.Chooser) *core.Case {
-			mode := pickMode(c)
+			mode := []int{16, 32}[c.Pick("mode", 2)]
 			f := labForms[c.Pick("form", len(labForms))]
-			w := widths[c.Pick("w", 3)]
+			w := []int{8, 16, 32}[c.Pick("w", 3)]
 			withKw := c.Bool("sizekw")
 			org := labOrgs[c.Pick("org", len(labOrgs))]
-			hasReg := f.name == "load" || f.name == "load_acc" || f.name == "store" || f.name == "sub_reg"
+			hasReg := f.name == "load" || f.name == "load_acc" || f.name == "store" || f.name == "sub_reg" || f.name == "xor_store" || f.name == "or_load" || f.name == "cmp_load"
 			if !withKw && !hasReg {
 				return nil // the operand size would be unspecified
 			}
@@ -414,11 +442,7 @@ func c01Scenarios(tier string) []*core.Scenario {
 					}
 					return v
 				}}
-		}})
-	ctx := c02Context()
-	ctx.Name = "reg_mem_behind_same_shape"
-	scs = append(scs, ctx)
-	return scs
+		}}
 }
 
 func init() {
